@@ -1,3 +1,4 @@
+pub mod c01;
 pub mod c02;
 pub mod c03;
 pub mod c04;
@@ -35,6 +36,7 @@ pub fn std_assumptions() -> Vec<String> {
 
 pub fn get(id: &str) -> Option<Box<dyn Check>> {
     match id {
+        "C01" => Some(Box::new(c01::C01)),
         "C02" => Some(Box::new(c02::C02)),
         "C03" => Some(Box::new(c03::C03)),
         "C04" => Some(Box::new(c04::C04)),
